@@ -2,6 +2,22 @@
    tile index, is read back slot by slot by the reader's byte-level path. *)
 From Coq Require Import List NArith Arith Lia Bool.
 From VT Require Import Base.Outcome Model.Crash Proofs.CrashProofs Model.VTBlock Proofs.VTBlockProofs Model.VTBytes Proofs.VTBytesProofs Model.VTFile.
+
+Lemma find_unique {A} (f : A -> bool) l b0 :
+  (forall b, In b l -> f b = true -> b = b0) -> (exists b, In b l /\ f b = true) -> find f l = Some b0.
+Proof.
+  intros Hu (b & Hb & Hf). destruct (find f l) as [b'|] eqn:E.
+  - apply find_some in E as [E1 E2]. f_equal. apply Hu; assumption.
+  - pose proof (find_none f l E b Hb) as G. congruence.
+Qed.
+
+Lemma nodup_map_inj {A B} (f : A -> B) : forall l a b, NoDup (map f l) -> In a l -> In b l -> f a = f b -> a = b.
+Proof.
+  induction l as [|x r IH]; intros a b Hn Ha Hb Hf; [destruct Ha|]. cbn [map] in Hn. inversion Hn as [|? ? Hx Hr]; subst.
+  destruct Ha as [<-|Ha], Hb as [<-|Hb]; [reflexivity| | |exact (IH a b Hr Ha Hb Hf)].
+  - exfalso. apply Hx. rewrite Hf. apply in_map. exact Hb.
+  - exfalso. apply Hx. rewrite <- Hf. apply in_map. exact Ha.
+Qed.
 Import ListNotations.
 Local Open Scope N_scope.
 
@@ -87,3 +103,192 @@ Section WithCodec.
     unfold file. rewrite sub_skip. apply sub_app_l. unfold data in *. lia.
   Qed.
 End WithCodec.
+
+(* ================= the whole file ================= *)
+Section WholeFile.
+  Variables (brotli : list N -> list N) (unb : list N -> option (list N)).
+  Hypothesis codec : forall b, unb (brotli b) = Some b.
+
+  Notation region := (region brotli).
+  Notation lay_blocks := (lay_blocks brotli).
+
+  Lemma bidx_read_blobs : forall bs raw, Forall bdef_wf bs -> concat_blobs bs = Ok raw ->
+    length raw = (33 * length bs)%nat /\ bidx_read (length bs) raw = Ok bs.
+  Proof.
+    induction bs as [|b r IH]; intros raw Hwf H.
+    - inversion H; subst. split; reflexivity.
+    - inversion Hwf as [|? ? Hb Hr]; subst. cbn [concat_blobs] in H.
+      destruct (bdef_roundtrip b Hb) as (l & Hl & Hlen & Hfrom). rewrite Hl in H. cbn [obind] in H.
+      destruct (concat_blobs r) as [raw'| | |] eqn:Er; cbn in H; try discriminate. inversion H; subst.
+      destruct (IH raw' Hr eq_refl) as [IH1 IH2]. split; [rewrite app_length, Hlen, IH1; cbn [length]; lia|].
+      cbn [length bidx_read]. rewrite firstn_app, Hlen, Nat.sub_diag, firstn_O, app_nil_r. rewrite <- Hlen at 1. rewrite firstn_all, Hfrom. cbn [obind].
+      rewrite skipn_app, Hlen, Nat.sub_diag. rewrite <- Hlen at 1. rewrite skipn_all. cbn [app skipn]. rewrite IH2. reflexivity.
+  Qed.
+
+  Lemma bidx_roundtrip bs raw : Forall bdef_wf bs -> concat_blobs bs = Ok raw -> bidx_from_blob raw = Ok bs.
+  Proof.
+    intros Hwf H. destruct (bidx_read_blobs bs raw Hwf H) as [Hl Hr]. unfold bidx_from_blob. rewrite Hl.
+    replace (N.of_nat (33 * length bs) / 33) with (N.of_nat (length bs)) by (apply N.div_unique with 0; lia).
+    replace (N.of_nat (length bs) * 33 =? N.of_nat (33 * length bs)) with true by (symmetry; apply N.eqb_eq; lia).
+    cbn [negb]. rewrite Nat2N.id. exact Hr.
+  Qed.
+
+  Lemma lay_blocks_app : forall a b off,
+    lay_blocks off (a ++ b) = lay_blocks off a ++ lay_blocks (off + N.of_nat (length (flat_map (fun cs => region (snd cs)) a))) b.
+  Proof.
+    induction a as [|[[z [[[x0 y0] x1] y1]] slots] r IH]; intros b off; [cbn; rewrite N.add_0_r; reflexivity|].
+    cbn [app Model.VTFile.lay_blocks flat_map snd]. f_equal. rewrite IH. f_equal. f_equal.
+    rewrite app_length, Nat2N.inj_add. unfold Model.VTFile.region at 2. rewrite app_length, Nat2N.inj_add. lia.
+  Qed.
+
+  Definition cell_ok (cs : cell * list (option (list N))) : Prop :=
+    let '((z, (x0, y0, x1, y1)), slots) := cs in
+    z <= 31 /\ x0 <= x1 /\ y0 <= y1 /\ x1 <= 2 ^ z - 1 /\ y1 <= 2 ^ z - 1 /\ x0 / 256 = x1 / 256 /\ y0 / 256 = y1 / 256 /\
+    N.of_nat (length slots) = (x1 - x0 + 1) * (y1 - y0 + 1).
+  Definition key (cs : cell * list (option (list N))) : N * N * N :=
+    let '((z, (x0, y0, _, _)), _) := cs in (z, x0 / 256, y0 / 256).
+  Definition bkey (b : bdef) : N * N * N := (bd_z b, bd_x b, bd_y b).
+  Definition fits (b : bdef) : Prop := bd_toff b + bd_tlen b <= u64_max /\ bd_ilen b <= u32_max.
+
+  Lemma lay_keys : forall bl off, map bkey (lay_blocks off bl) = map key bl.
+  Proof.
+    induction bl as [|[[z [[[x0 y0] x1] y1]] slots] r IH]; intros off; [reflexivity|].
+    cbn [Model.VTFile.lay_blocks map key]. rewrite IH. reflexivity.
+  Qed.
+
+  Lemma lay_wf : forall bl off, Forall cell_ok bl -> Forall fits (lay_blocks off bl) -> Forall bdef_wf (lay_blocks off bl).
+  Proof.
+    induction bl as [|[[z [[[x0 y0] x1] y1]] slots] r IH]; intros off Hc Hf; [constructor|].
+    inversion Hc as [|? ? Hc1 Hcr]; subst. cbn [Model.VTFile.lay_blocks] in *. inversion Hf as [|? ? Hf1 Hfr]; subst.
+    constructor; [|exact (IH _ Hcr Hfr)].
+    destruct Hc1 as (Hz & Hx & Hy & Hxm & Hym & Hbx & Hby & _). destruct Hf1 as [Hs Hi]. cbn [bd_toff bd_tlen bd_ilen] in Hs, Hi.
+    pose proof (bdef_new_wf z x0 y0 x1 y1 Hz Hx Hy Hxm Hym Hbx Hby) as W. unfold bdef_wf in *. cbn in *.
+    destruct W as (W1 & W2 & W3 & W4 & W5 & W6 & W7 & W8 & W9 & W10 & W11 & W12 & W13 & W14 & W15 & _).
+    repeat split; try assumption; reflexivity.
+  Qed.
+
+  (* x in [x0, x1] with x0 and x1 in the same 256-column lies in that column *)
+  Lemma same_block x0 x1 x : x0 <= x -> x <= x1 -> x0 / 256 = x1 / 256 -> x / 256 = x0 / 256.
+  Proof.
+    intros H0 H1 Hb. apply N.le_antisymm.
+    - rewrite Hb. apply N.div_le_mono; lia.
+    - apply N.div_le_mono; lia.
+  Qed.
+
+  Theorem vt_written_file_lookup h0 metaz A z x0 y0 x1 y1 slots B file :
+    hdr_wf h0 ->
+    let bl := A ++ ((z, (x0, y0, x1, y1)), slots) :: B in
+    vt_assemble brotli h0 metaz bl = Ok file ->
+    Forall cell_ok bl -> NoDup (map key bl) ->
+    N.of_nat (length file) <= u64_max ->
+    Forall fits (lay_blocks (66 + N.of_nat (length metaz)) bl) ->
+    Forall (fun p => snd p <= u32_max) (w_index (write_block slots)) ->
+    forall x y, x0 <= x <= x1 -> y0 <= y <= y1 ->
+    vt_file_lookup unb file z x y =
+      Ok (match nth_error slots (N.to_nat ((y - y0) * (x1 - x0 + 1) + (x - x0))) with
+          | Some (Some d) => if N.of_nat (length d) =? 0 then None else Some d
+          | _ => None
+          end).
+  Proof.
+    intros Hh0 bl Hasm Hcells Hnd Hfile Hfits Hlens x y Hx Hy.
+    unfold vt_assemble in Hasm.
+    set (start := 66 + N.of_nat (length metaz)) in *.
+    set (bs := lay_blocks start bl) in *.
+    set (body := flat_map (fun cs => region (snd cs)) bl) in *.
+    destruct (concat_blobs bs) as [raw| | |] eqn:Eraw; cbn [obind] in Hasm; try discriminate.
+    set (bidxz := brotli raw) in *.
+    match type of Hasm with Ok (hdr_to_blob ?hh ++ _) = _ => set (h := hh) in * end.
+    assert (Hfile_eq : hdr_to_blob h ++ metaz ++ body ++ bidxz = file) by (apply (f_equal (fun o : outcome (list N) => match o with Ok v => v | _ => [] end)) in Hasm; exact Hasm). clear Hasm.
+    assert (Hwf_bs : Forall bdef_wf bs) by (apply lay_wf; assumption).
+    pose proof (bidx_roundtrip bs raw Hwf_bs Eraw) as Hbidx.
+    (* the cell of interest *)
+    assert (Hcell : cell_ok ((z, (x0, y0, x1, y1)), slots)).
+    { rewrite Forall_forall in Hcells. apply Hcells. unfold bl. apply in_or_app. right. left. reflexivity. }
+    destruct Hcell as (Hz & Hxx & Hyy & Hxm & Hym & Hbx & Hby & Hcount).
+    (* header *)
+    assert (Hbody_len : N.of_nat (length body) <= u64_max /\ N.of_nat (length bidxz) <= u64_max /\ N.of_nat (length metaz) <= u64_max /\ start + N.of_nat (length body) <= u64_max).
+    { rewrite <- Hfile_eq in Hfile. rewrite !app_length in Hfile.
+      assert (length (hdr_to_blob h) = 66%nat) by (unfold hdr_to_blob; rewrite !app_length, !be_length; reflexivity). unfold start. lia. }
+    assert (Hwf_h : hdr_wf h).
+    { destruct Hh0 as (F & C & Z0 & Z1 & B0 & B1 & B2 & B3 & _). destruct Hbody_len as (L1 & L2 & L3 & L4). unfold hdr_wf, h. cbn [h_format h_comp h_z0 h_z1 h_b0 h_b1 h_b2 h_b3 h_moff h_mlen h_boff h_blen].
+      unfold u64_max in *. repeat split; try assumption; lia. }
+    destruct (hdr_roundtrip h Hwf_h) as [Hhl Hhd].
+    unfold vt_file_lookup. rewrite <- Hfile_eq.
+    rewrite firstn_app, Hhl, Nat.sub_diag, firstn_O, app_nil_r. rewrite <- Hhl at 1. rewrite firstn_all, Hhd. cbn [obind].
+    assert (E1 : h_moff h = 66) by reflexivity. assert (E2 : h_mlen h = N.of_nat (length metaz)) by reflexivity.
+    assert (E3 : h_boff h = start + N.of_nat (length body)) by reflexivity. assert (E4 : h_blen h = N.of_nat (length bidxz)) by reflexivity.
+    rewrite E1, E2, E3, E4. clearbody h.
+    set (F := hdr_to_blob h ++ metaz ++ body ++ bidxz) in *.
+    assert (HlenF : length F = (66 + (length metaz + (length body + length bidxz)))%nat) by (unfold F; rewrite !app_length, Hhl; reflexivity).
+    (* metadata read while opening *)
+    assert (Hmeta : (if 0 <? N.of_nat (length metaz) then match read_range F 66 (N.of_nat (length metaz)) with Some _ => Ok tt | None => Err end else Ok tt) = Ok tt).
+    { destruct (0 <? N.of_nat (length metaz)); [|reflexivity]. rewrite read_range_at by (rewrite HlenF; lia). reflexivity. }
+    rewrite Hmeta. cbn [obind].
+    (* block index *)
+    assert (Hb : read_range F (start + N.of_nat (length body)) (N.of_nat (length bidxz)) = Some bidxz).
+    { rewrite read_range_at by (rewrite HlenF; unfold start; lia).
+      replace (N.to_nat (start + N.of_nat (length body))) with (length (hdr_to_blob h ++ metaz ++ body)) by (rewrite !app_length, Hhl; unfold start; lia).
+      rewrite Nat2N.id. unfold F.
+      replace (hdr_to_blob h ++ metaz ++ body ++ bidxz) with ((hdr_to_blob h ++ metaz ++ body) ++ bidxz ++ []) by (rewrite app_nil_r, <- !app_assoc; reflexivity).
+      rewrite sub_mid. reflexivity. }
+    rewrite Hb. unfold bidxz at 1. rewrite codec, Hbidx. cbn [obind].
+    replace (31 <? z) with false by (symmetry; apply N.ltb_ge; exact Hz).
+    (* the block *)
+    unfold bs, bl. rewrite lay_blocks_app. cbn [Model.VTFile.lay_blocks].
+    set (st := write_block slots).
+    match goal with |- context [bidx_find (?a ++ ?m :: ?b) _ _ _] => set (bsA := a); set (bmid := m); set (bsB := b) end.
+    set (offA := bd_toff bmid).
+    assert (Hfind : bidx_find (bsA ++ bmid :: bsB) z (x / 256) (y / 256) = Some bmid).
+    { unfold bidx_find. apply find_unique.
+      - intros b Hin Hm. apply in_rev in Hin.
+        apply andb_true_iff in Hm. destruct Hm as [Hm Hm3]. apply andb_true_iff in Hm. destruct Hm as [Hm1 Hm2].
+        apply N.eqb_eq in Hm1, Hm2, Hm3.
+        assert (Hk : bkey b = bkey bmid).
+        { unfold bkey. rewrite Hm1, Hm2, Hm3. unfold bmid, bdef_new. cbn [bd_z bd_x bd_y].
+          rewrite (same_block x0 x1 x) by (try apply Hx; exact Hbx). rewrite (same_block y0 y1 y) by (try apply Hy; exact Hby). reflexivity. }
+        (* keys are distinct *)
+        assert (Hkeys : map bkey (bsA ++ bmid :: bsB) = map key bl).
+        { pose proof (lay_keys bl start) as K. unfold bl in K. rewrite lay_blocks_app in K. exact K. }
+        rewrite <- Hkeys in Hnd.
+        apply (nodup_map_inj bkey (bsA ++ bmid :: bsB) b bmid Hnd Hin); [apply in_or_app; right; left; reflexivity|exact Hk].
+      - exists bmid. split; [apply in_rev; rewrite rev_involutive; apply in_or_app; right; left; reflexivity|].
+        unfold bmid, bdef_new. cbn [bd_z bd_x bd_y].
+        rewrite (same_block x0 x1 x) by (try apply Hx; exact Hbx). rewrite (same_block y0 y1 y) by (try apply Hy; exact Hby).
+        rewrite !N.eqb_refl. reflexivity. }
+    rewrite Hfind.
+    assert (G0 : bd_gx0 bmid = x0) by reflexivity. assert (G1 : bd_gx1 bmid = x1) by reflexivity.
+    assert (G2 : bd_gy0 bmid = y0) by reflexivity. assert (G3 : bd_gy1 bmid = y1) by reflexivity.
+    rewrite G0, G1, G2, G3.
+    replace ((x0 <=? x) && (x <=? x1) && (y0 <=? y) && (y <=? y1)) with true
+      by (symmetry; rewrite !andb_true_iff; repeat split; apply N.leb_le; lia).
+    cbn [negb]. cbv zeta.
+    (* slot count and slot number *)
+    assert (Hcnt : N.to_nat ((bd_cx1 bmid - bd_cx0 bmid + 1) * (bd_cy1 bmid - bd_cy0 bmid + 1)) = length slots).
+    { unfold bmid, bdef_new. cbn [bd_cx0 bd_cx1 bd_cy0 bd_cy1].
+      pose proof (N.div_mod x0 256 ltac:(lia)) as D0. pose proof (N.div_mod y0 256 ltac:(lia)) as D1.
+      replace (x1 - x0 / 256 * 256 - (x0 - x0 / 256 * 256)) with (x1 - x0) by lia.
+      replace (y1 - y0 / 256 * 256 - (y0 - y0 / 256 * 256)) with (y1 - y0) by lia.
+      rewrite <- Hcount. apply Nat2N.id. }
+    rewrite Hcnt.
+    assert (Hslot : (N.to_nat ((y - y0) * (x1 - x0 + 1) + (x - x0)) < length slots)%nat).
+    { assert ((y - y0) * (x1 - x0 + 1) + (x - x0) < N.of_nat (length slots)); [|lia].
+      rewrite Hcount. assert (Ha : y - y0 <= y1 - y0) by lia. assert (Hb' : x - x0 <= x1 - x0) by lia.
+      remember (y - y0) as a eqn:Ea. remember (x - x0) as c eqn:Ec. remember (x1 - x0) as b eqn:Eb. remember (y1 - y0) as d eqn:Ed. clear - Ha Hb'.
+      apply N.lt_le_trans with (a * (b + 1) + (b + 1)); [lia|]. replace (a * (b + 1) + (b + 1)) with ((a + 1) * (b + 1)) by lia.
+      rewrite (N.mul_comm (b + 1)). apply N.mul_le_mono_r. lia. }
+    (* the file around the block *)
+    assert (Hshape : F = (hdr_to_blob h ++ metaz ++ flat_map (fun cs => region (snd cs)) A) ++ w_data st ++ brotli (tidx_as_blob (w_index st)) ++ (flat_map (fun cs => region (snd cs)) B ++ bidxz)).
+    { unfold F, body, bl. rewrite flat_map_app. cbn [flat_map snd]. unfold Model.VTFile.region at 2. fold st. rewrite <- !app_assoc. reflexivity. }
+    assert (HoffA : offA = N.of_nat (length (hdr_to_blob h ++ metaz ++ flat_map (fun cs => region (snd cs)) A))).
+    { unfold offA, bmid. cbn [bd_toff]. unfold start. rewrite !app_length, Hhl, !Nat2N.inj_add, N.add_assoc. reflexivity. }
+    assert (G4 : bd_ioff bmid = offA + N.of_nat (length (w_data st))) by reflexivity.
+    assert (G5 : bd_ilen bmid = N.of_nat (length (brotli (tidx_as_blob (w_index st))))) by reflexivity.
+    fold offA. rewrite G4, G5. rewrite HoffA, Hshape.
+    rewrite (block_in_file brotli unb codec slots _ _ (N.to_nat ((y - y0) * (x1 - x0 + 1) + (x - x0)))).
+    - f_equal. apply block_roundtrip.
+    - fold st. rewrite <- Hshape, <- Hfile_eq in *. exact Hfile.
+    - exact Hlens.
+    - exact Hslot.
+  Qed.
+End WholeFile.
+
